@@ -113,6 +113,22 @@ structure DagWF2 {V} (r : Runner V) : Prop where
   p4 : ∀ n, lookupList n r.ctrlPreds ≠ [] → n ∈ akeys (initChans r)
 
 
+/-! ### exact inputs -/
+
+/-- the input handed to `n` is built from exactly the values that completed data predecessors
+    routed to it -/
+def ExactIn {V} (ops : ValOps V) (r : Runner V) (H : List (Done V)) (n : Key) (v : V) : Prop :=
+  ∃ vals : List (Key × V), (∀ p w, (p, w) ∈ vals ↔ ((p, w) ∈ H ∧ RoutesD r p w n)) ∧
+    ((vals = [] ∧ v = ops.zero) ∨ collect ops (vals.map (·.2)) = .ready v)
+
+
+/-- the input of every task of every step is built from exactly the values routed to it by
+    completions of the older steps (`tr` lists the steps newest first) -/
+def ExactTr {V} (ops : ValOps V) (r : Runner V) (x : V) : Trace V → Prop
+  | [] => True
+  | step :: older => (∀ n v, (n, v) ∈ step → ExactIn ops r (histOf r x older) n v) ∧ ExactTr ops r x older
+
+
 /-! ### the additional well-formedness, executable -/
 
 def dagWF2b {V} (r : Runner V) : Bool :=
